@@ -216,6 +216,15 @@ func loadSources() {
 				continue
 			}
 			seenRegime[reg] = true
+			// numbers that are not integral (coordinates of the supplier's address):
+			// their canonical form, and so the digest, takes a path no example uses
+			if _, ok := jsontree.Get(tree, "/supplier/addresses/0"); ok {
+				n := len(seenRegime)
+				coords := map[string]any{"lat": json.Number(fmt.Sprintf("40.41%02d", n)), "lon": json.Number(fmt.Sprintf("-3.70%02d", n))}
+				if t2, err := jsontree.Set(tree, "/supplier/addresses/0/coords", coords); err == nil {
+					sources = append(sources, docSrc{name: d.Path + "+coords", json: jsontree.Encode(t2)})
+				}
+			}
 			for _, a := range addons {
 				t2, err := jsontree.Set(tree, "/$addons", []any{a})
 				if err != nil {
